@@ -329,7 +329,7 @@ func Run(ctx *common.Ctx) int {
 		}
 		cfgs := []cfg{{1, 20000, ""}, {7, 20000, "rel"}, {300, 20000, "nested/x/y"}, {7, 4096, "abs"}, {1, 1000000, "rel"}, {5, 1000000, ""}, {6, 20000, "samples.bin"}, {3, 20000, "round1/batch.dat"},
 			// directory names a path-handling shortcut may trip over: printf verbs, blanks, non-ASCII, a trailing separator, dot segments
-			{4, 20000, "100%done"}, {3, 20000, "a b/c%d e"}, {2, 20000, "样本/%s%v"}, {2, 20000, "trail/"}, {2, 20000, "./dot/../dot2/%%"}, {2, 4096, "cwd%"}}
+			{4, 20000, "100%done"}, {3, 20000, "a b/c%d e"}, {2, 20000, "样本/%s%v"}, {2, 20000, "trail/"}, {300, 20000, "leftover/a"}, {40, 20000, "leftover-b"}, {12, 4096, "leftover-c"}, {2, 20000, "./dot/../dot2/%%"}, {2, 4096, "cwd%"}}
 		if !quick {
 			cfgs = append(cfgs, cfg{300, 4096, ""}, cfg{33, 1000000, "abs"})
 		}
@@ -355,7 +355,24 @@ func Run(ctx *common.Ctx) int {
 				wantDir = c.out
 				args = append(args, "-o", c.out)
 			}
-			if ci%2 == 1 {
+			if strings.HasPrefix(c.out, "leftover") {
+				// leftovers of an interrupted earlier run with the SAME sample size: a finished prefix with holes in it
+				// (writers finish out of order) - one sample missing, one of zero length, one a byte short
+				_ = os.MkdirAll(filepath.Join(dir, wantDir), 0o755)
+				upto := c.s / 3
+				for i := 0; i <= upto; i++ {
+					b := bytes.Repeat([]byte{byte(i), byte(i >> 8), 0x5A, 0xC3}, c.n/8/4+1)[:c.n/8]
+					switch i {
+					case upto - 4:
+						continue
+					case upto - 3:
+						b = nil
+					case upto/2 + 1:
+						b = b[:len(b)-1]
+					}
+					_ = os.WriteFile(filepath.Join(dir, wantDir, fmt.Sprintf("random%d.bin", i)), b, 0o600)
+				}
+			} else if ci%2 == 1 {
 				// regenerate over the larger samples of an earlier run
 				_ = os.MkdirAll(filepath.Join(dir, wantDir), 0o755)
 				for i := 0; i < c.s && i < 3; i++ {
@@ -403,7 +420,7 @@ func Run(ctx *common.Ctx) int {
 			_ = os.RemoveAll(dir)
 		}
 	}
-	samples = append(samples, map[string]interface{}{"family": "end-to-end", "runs": e2e, "configs": "s in {1,5,7,300(,33)} x n in {20000, 10^6, 4096} x output forms (default, relative, nested, absolute, names ending in .bin/.dat, names with printf verbs / blanks / non-ASCII / trailing separator / dot segments, a working directory with such a name), then rddetector -i on the result"})
+	samples = append(samples, map[string]interface{}{"family": "end-to-end", "runs": e2e, "configs": "s in {1,5,7,300(,33)} x n in {20000, 10^6, 4096} x output forms (default, relative, nested, absolute, names ending in .bin/.dat, names with printf verbs / blanks / non-ASCII / trailing separator / dot segments, a working directory with such a name, a directory holding the leftovers of an interrupted run of the same sample size with a missing, an empty and a short sample inside the finished prefix), then rddetector -i on the result"})
 	sigs := make([]string, 0)
 	for k := range m.Signatures {
 		sigs = append(sigs, k)
